@@ -97,6 +97,7 @@ func c09Run(rc *RunCtx, params any) {
 		return
 	}
 	rc.R.Class = cfg.Name
+	rc.Note("proto", protoTag(cfg.C, cfg.S))
 	n := NewSimNet(s, p.Rules)
 	pair, err := NewPair(s, n, cfg.C, cfg.S, nil)
 	if err != nil {
